@@ -420,6 +420,19 @@ def _case(arg) -> Dict[str, Any]:
         # a host-only rank none of whose events carries an `args` object (no launches, no metadata entries): stream / correlation must decode to their defaults
         last = max(per_rank)
         per_rank[last] = [e for e in per_rank[last] if e.get("ph") == "X" and "args" not in e]
+    if seed % 3 == 2:
+        # Python stack frames as the profiler writes them with with_stack=True: complete events of category python_function, spread over the file
+        # (ids are positions in the file's event list, so every event after such an entry shows whether entries were dropped before numbering)
+        import random as _r
+
+        rr = _r.Random(seed)
+        for evs in per_rank.values():
+            host = [e for e in evs if e.get("ph") == "X" and e.get("cat") == "cpu_op"]
+            for k in range(min(4, len(host))):
+                h = rr.choice(host)
+                pf = {"ph": "X", "cat": "python_function", "name": f"model.py({10 + k}): forward", "pid": h["pid"], "tid": h["tid"], "ts": h["ts"], "dur": h["dur"],
+                      "args": {"Python id": k + 1, "Python parent id": k}}
+                evs.insert(rr.randint(1, max(1, len(evs) - 1)), pf)
     if seed % 5 == 0:  # stream 0 and non-numeric stream values
         for evs in per_rank.values():
             for e in evs:
